@@ -530,9 +530,13 @@ func (r *Runner) finish(aborted bool) int {
 		"wall_s":      time.Since(r.Start).Seconds(),
 		"violations":  len(confirmed),
 	}
-	os.MkdirAll(filepath.Join(VerifDir, "evidence"), 0o755)
+	evDir := filepath.Join(VerifDir, "evidence")
+	if d := os.Getenv("VERIF_EVIDENCE_DIR"); d != "" {
+		evDir = d // runs against deliberately broken trees must not overwrite the evidence of the real tree
+	}
+	os.MkdirAll(evDir, 0o755)
 	b, _ := json.MarshalIndent(ev, "", " ")
-	if err := os.WriteFile(filepath.Join(VerifDir, "evidence", r.Property+".json"), append(b, '\n'), 0o644); err != nil {
+	if err := os.WriteFile(filepath.Join(evDir, r.Property+".json"), append(b, '\n'), 0o644); err != nil {
 		fmt.Fprintf(os.Stderr, "CHECK-ERROR cannot write evidence: %v\n", err)
 		return 2
 	}
